@@ -9,8 +9,8 @@ CLAIMED = {
         category="exploration",
         design_ref="DESIGN.md 3.5",
         technique="deterministic simulation: seeded search over delivery orders, duplications and merge trees of best_match reductions across replicas",
-        text="Seeded simulation of R replicas that reduce a candidate multiset with the real Pattern::best_match under scripted delivery order, duplicate/late deliveries and a scripted merge tree; per-step invariants (None iff neither matches, result is one of the arguments and matches, argument-order independence) an end-of-history convergence check against an independent max-under-order fold, and - on the numeric sub-domain of versions (digit runs below 2^63, '.', '_', ignored characters, trailing nb<N>) - an independent model of the dewey rule that fixes the winner of each pair. Sampling, not enumeration: a clean batch is evidence that the reduction is order-, grouping- and duplication-independent on the schedules explored.",
-        note="Claims the history clause of C06 (plus the per-pair clauses as invariants of the same runs). The version order used by the reference fold is the one the library itself exposes through single-bound patterns; whether that order equals pkg_install's is C01 (not claimed). Candidates with pattern metacharacters in the version are not generated.",
+        text="Seeded simulation of R replicas that reduce a candidate multiset with the real Pattern::best_match under scripted delivery order, duplicate/late deliveries and a scripted merge tree; per-step invariants (None iff neither matches, result is one of the arguments and matches, argument-order independence) an end-of-history convergence check against an independent max-under-order fold, and, for every pair in which both candidates match, an independent model of the dewey rule written from the property text (digit runs below 2^63 by value; '.', '_', pl = 0; alpha/beta/rc|pre = -3/-2/-1; other letters = 0 then alphabet rank; case-insensitive; ignored characters; nb<N> revision; zero padding) that fixes the winner, ties to the byte-wise smaller name. Sampling, not enumeration: a clean batch is evidence that the reduction is order-, grouping- and duplication-independent on the schedules explored.",
+        note="Claims the history clause of C06 (plus the per-pair clauses as invariants of the same runs). The end-of-history fold uses the version order the library itself exposes through single-bound patterns; the per-pair winner is checked against the independent dewey model, which declines on digit runs at or beyond i64::MAX, on an 'nb' not in lower case and on versions with pattern metacharacters. One known finding (a letter weighs its ASCII code instead of its alphabet rank; not repairable without editing the crate's own test) is listed in known_findings.json and printed as KNOWN-FINDING. C01's quantifier over all four operators and over matches() is not claimed.",
     ),
     "C07": dict(
         category="exploration",
